@@ -200,6 +200,9 @@ func (c *ContractIterator) Value() []byte {
 // stripDelIterator 从迭代器里剔除删除标注和空版本
 type stripDelIterator struct {
 	ledger.XMIterator
+	// stripEmpty also drops records with an empty version: never-written keys that were read
+	// (must not be set for the outputs cache, whose records carry no version at all)
+	stripEmpty bool
 }
 
 func newStripDelIterator(xmiter ledger.XMIterator) ledger.XMIterator {
@@ -208,10 +211,20 @@ func newStripDelIterator(xmiter ledger.XMIterator) ledger.XMIterator {
 	}
 }
 
+func newStripDelAndEmptyIterator(xmiter ledger.XMIterator) ledger.XMIterator {
+	return &stripDelIterator{
+		XMIterator: xmiter,
+		stripEmpty: true,
+	}
+}
+
 func (s *stripDelIterator) Next() bool {
 	for s.XMIterator.Next() {
 		v := s.Value()
 		if IsDelFlag(v.PureData.Value) {
+			continue
+		}
+		if s.stripEmpty && IsEmptyVersionedData(v) {
 			continue
 		}
 		return true
